@@ -164,12 +164,13 @@ Lemma geq_cluster_round_down i off :
 Proof. unfold g_Qcow2Info_cluster_round_down, cluster_round_down. geqi. Qed.
 #[export] Hint Rewrite geq_cluster_round_down : geq.
 
-Lemma geq_cluster_round_up i off : info_rng i -> off < 2 ^ 63 ->
-  call g_Qcow2Info_cluster_round_up [v_info i; VInt off] = Ret (VInt (cluster_round_up i off)).
+Lemma geq_cluster_round_up i off : info_rng i ->
+  call g_Qcow2Info_cluster_round_up [v_info i; VInt off]
+  = if off + in_cluster_offset_mask i <? 18446744073709551616
+    then Ret (VInt (cluster_round_up i off)) else Overflow.
 Proof.
-  intros R0 Ho; dR R0. unfold g_Qcow2Info_cluster_round_up, cluster_round_up. geqi.
-  rewrite r_mask0 in *. pose proof (pow2_lt_mono (cluster_shift i) 22 ltac:(lia)).
-  change (2 ^ 63) with 9223372036854775808 in Ho. change (2 ^ 22) with 4194304 in *. lia.
+  intros R0; dR R0. unfold g_Qcow2Info_cluster_round_up, cluster_round_up. rxi. calls.
+  destruct (off + in_cluster_offset_mask i <? 18446744073709551616); rx; calls; reflexivity.
 Qed.
 #[export] Hint Rewrite geq_cluster_round_up : geq.
 
@@ -298,10 +299,14 @@ Lemma geq_hc_rb_slice_host_end i h : info_rng i -> h < 2 ^ 63 ->
 Proof.
   intros R Hh. pose proof R as R0; dR R0.
   unfold g_HostCluster_rb_slice_host_end, hc_rb_slice_host_end. geq.
-  unfold hc_rb_slice_host_start, shl32 in *.
+  unfold hc_rb_slice_host_start, shl64 in *.
   match goal with H : _ <= N.land h ?m + ?b mod _ |- _ =>
-    pose proof (land_le h m); pose proof (N.mod_lt b (2 ^ 32) ltac:(discriminate)) end.
-  change (2 ^ 63) with 9223372036854775808 in Hh. lit_pows. lia.
+    pose proof (land_le h m); assert (Hb : b < 2 ^ 62) end.
+  { unfold rb_slice_entries, shl32. rewrite shiftl_1, pow2_mod_small by lia.
+    rewrite shiftr_div, <- N.pow_sub_r by (try discriminate; lia).
+    rewrite shiftl_mul, <- N.pow_add_r. apply pow2_lt_mono. lia. }
+  match type of Hb with ?b < _ => rewrite (N.mod_small b) in * by (lit_pows; eapply N.lt_trans; [exact Hb|reflexivity]) end.
+  change (2 ^ 63) with 9223372036854775808 in Hh. change (2 ^ 62) with 4611686018427387904 in Hb. lia.
 Qed.
 #[export] Hint Rewrite geq_hc_rb_slice_host_end : geq.
 
